@@ -310,7 +310,7 @@ def ops_from_log(case, obs):
 
     last_send = {}
     for e in log:
-        if e["e"] == "peer-send":
+        if e["e"] in ("peer-send", "svc-send"):
             last_send[e["k"]] = e["q"]
     if hooked:
         for e in log:
@@ -328,13 +328,13 @@ def ops_from_log(case, obs):
                     kk = cands[-1]
                     enq.add(kk)
                     op(["e", "h%d" % kk])
-            elif kind == "peer-send" and k in known:
+            elif kind in ("peer-send", "svc-send") and k in known:
                 if k in enq:
                     op(["ans", "h%d" % k])
                     if e["q"] == last_send.get(k):
                         op(["f", "h%d" % k])      # the peer never answers this request again
                 else:
-                    op(["stray", 0, e["i"]])
+                    op(["stray", 0, e["i"] if e["i"] >= 0 else idx_of.get(k, 0)])
             elif kind == "peer-stray":
                 op(["stray", 0, e["i"]])
             elif kind == "t:loadAndDelete":
@@ -470,6 +470,9 @@ def oracle(case, obs):
     send_ev = "prov-send" if case.get("kind") == "reverse" else "peer-send"
     if case.get("peer") == "service":
         send_ev = "svc-send"
+    serr = [e for e in log if e["e"] == "script-error" and "no request of caller" in e.get("s", "")]
+    if serr:
+        return ("c09:%s:request-not-delivered" % t, "%s: %s although the connection was healthy and the caller was waiting" % (t, serr[0]["s"]))
     # 1. nobody returns somebody else's reply, a stray or a made-up body
     for k, r in sorted(res.items(), key=lambda kv: int(kv[0])):
         if r.startswith("other:") or r.startswith("resp:"):
